@@ -291,10 +291,10 @@ T_CALLS = {
     'lsf_cross': lambda: (lambda: _tgg.line_sf(55, 273741.2966, 5796489.7769, 54, 758173.7973, 5828674.3402, 'south', _tgc.intl24)),
 }
 _tg, _te = _thr.make(T_CALLS, ['geodepy/geodesy.py'], 'geodesy:utm:threads', quick=['inv_55_54', 'inv_north_intl', 'dir_north_ans', 'lsf_cross'],
-                     triple=('inv_55_54', 'dir_north_ans', 'lsf_cross'), files_thorough=['geodepy/convert.py'])
+                     triple=('inv_55_54', 'dir_north_ans', 'lsf_cross'), files_thorough=['geodepy/convert.py'], parts=4)
 
 
-SUBCHECKS = [Sub('grid_geodesic', gen, ev, chunk=1, floor=500, guard=True, envs=8), Sub('ellipsoids', gen_ell, ev, chunk=1, floor=300, guard=True), Sub('both_hemispheres', gen_both, ev_both, chunk=1, floor=100, guard=True, envs=4), Sub('threads', _tg, _te, chunk=1, floor=3, poison=False)]
+SUBCHECKS = [Sub('grid_geodesic', gen, ev, chunk=1, floor=500, guard=True, envs=8), Sub('ellipsoids', gen_ell, ev, chunk=1, floor=300, guard=True), Sub('both_hemispheres', gen_both, ev_both, chunk=1, floor=100, guard=True, envs=4), Sub('threads', _tg, _te, chunk=1, floor=3, poison=False, fresh=True)]
 
 
 def bounds(tier, seed):
